@@ -68,7 +68,14 @@ AErr == [t |-> "err"]
 EmptyFn == [k \in {} |-> 0]
 
 RECURSIVE NormNum(_, _)
-NormNum(m, e) == IF m = 0 THEN <<0, 0>> ELSE IF m % 10 = 0 THEN NormNum(m \div 10, e + 1) ELSE <<m, e>>
+(* SYMBOLIC numbers: e = Sym marks m as an index into the table of named decimal numerals of the binding
+   (numbers that need 17 significant digits, integers beyond 2^53, the largest / smallest doubles, long
+   decimals: they do not fit TLC's 32-bit integers).  A number token denotes the IEEE double nearest to its
+   decimal value; distinct table entries denote distinct doubles (checked by the binding with python float). *)
+Sym == 1000
+SymNumbers == 1..10
+NormNum(m, e) == IF e = Sym THEN <<m, e>> ELSE IF m = 0 THEN <<0, 0>>
+                 ELSE IF m % 10 = 0 THEN NormNum(m \div 10, e + 1) ELSE <<m, e>>
 
 (* the value with every codepoint that is not an XML character replaced by U+FFFD *)
 RECURSIVE ReplAV(_)
@@ -287,14 +294,16 @@ Smix == <<CA, CQ, CB, CS>>
 Sub == <<CB, CU>>          \* backslash u
 
 XStrings == {S0, Sa, Sq, Sb, Sbn, Sbnl, Ss, Snl, Sdel, Sast, Smix, Sub, VHiL, VBmp, VTrunc}
-XNumbers == {XNum("int", 0, 0), XNum("int", -1, 0), XNum("int", 100, 0), XNum("dec", 5, -1), XNum("dec", 314159, -5),
+XNumbers == {XNum("dbl", 1, Sym), XNum("dbl", 2, Sym), XNum("dbl", 6, Sym), XNum("int", 0, 0), XNum("int", -1, 0), XNum("int", 100, 0), XNum("dec", 5, -1), XNum("dec", 314159, -5),
              XNum("dbl", 1, 2), XNum("dbl", 1, -7), XNum("dbl", 314159, -5), XNum("dbl", 5, -1),
              XNum("dbl", 1, 20), XNum("dbl", 1, -10), XNum("dec", 25, -1), XNum("dec", 1, -3)}
 XAtoms0 == {XStr(s) : s \in XStrings} \cup XNumbers \cup {XBool(TRUE), XBool(FALSE), XEmpty}
 XAtoms1 == {XStr(Sa), XStr(Sbn), XBool(TRUE), XEmpty, XNum("int", -1, 0), XNum("dec", 314159, -5), XNum("dbl", 1, 2)}
            \cup (IF Universe = "thorough" THEN {XStr(Sast), XStr(Sq), XBool(FALSE), XNum("dbl", 1, -7), XNum("dec", 5, -1)} ELSE {})
 XKeys == {S0, Sa, Sq, Sbn, Sbnl, Ss, VHi} \cup (IF Universe = "thorough" THEN {Sb, Snl, Sdel, Sast, Smix} ELSE {})
-XKeyPairs == {<<Sa, Sq>>, <<Sbn, Sbnl>>, <<S0, Ss>>, <<Sa, Sbn>>}
+(* pairs of DIFFERENT keys of which one is what the other would be if it were unescaped once more *)
+LookAlikePairs == {<<Sbn, Snl>>, <<<<CA, CB, CN>>, <<CA, CNL>>>>, <<VBmp, <<HexUpper(10)>>>>, <<<<CB, CS>>, Ss>>, <<<<CB, CB>>, Sb>>}
+XKeyPairs == {<<Sa, Sq>>, <<Sbn, Sbnl>>, <<S0, Ss>>, <<Sa, Sbn>>} \cup LookAlikePairs
              \cup (IF Universe = "thorough" THEN {<<Sb, Sbn>>, <<Snl, Sbnl>>, <<Sdel, Sast>>, <<Sa, Smix>>, <<Sq, Ss>>} ELSE {})
 Map1(k, x) == XMap([j \in {k} |-> x])
 Map2(kp, x, y) == XMap([j \in {kp[1], kp[2]} |-> IF j = kp[1] THEN x ELSE y])
@@ -317,7 +326,7 @@ XdmUniverse == XAtoms0 \cup XD1 \cup XD2
 (* JSON texts that Serialize does not produce: other escape forms, number spellings, duplicate keys *)
 TStrings == XStrings \cup {Sc1, <<CA, CC1>>} \cup BackslashUValues
 TStrAtoms == {SStr(Esc(s, pol)) : s \in TStrings, pol \in Policies}
-TNumAtoms == {SNum(1, 2, sp) : sp \in {"exp", "Exp", "plain", "frac", "expplus", "dexp"}}
+TNumAtoms == {SNum(i, Sym, "plain") : i \in SymNumbers} \cup {SNum(1, 2, sp) : sp \in {"exp", "Exp", "plain", "frac", "expplus", "dexp"}}
              \cup {SNum(1, -7, sp) : sp \in {"Exp", "plain", "dexp"}} \cup {SNum(0, 0, sp) : sp \in {"plain", "negzero", "frac", "exp"}}
              \cup {SNum(5, -1, sp) : sp \in {"plain", "exp"}} \cup {SNum(314159, -5, sp) : sp \in {"plain", "exp"}}
              \cup {SNum(1, 20, sp) : sp \in {"exp", "plain"}} \cup {SNum(1, -10, sp) : sp \in {"exp", "plain"}}
@@ -327,7 +336,7 @@ TAtoms1 == {SStr(Esc(Sa, "U")), SStr(Esc(Snl, "py")), SNum(1, 2, "Exp"), SNull, 
 TAtoms2 == {SNum(1, 0, "plain"), SStr(Sa), SNull}
 TKeys == {Esc(s, pol) : s \in {Sa, Sq, Sbn, Sbnl, Ss, Sc1, S0, VHiL, VLo, VBmp, VRev, VNoHex} \cup (IF Universe = "thorough" THEN {Sb, Snl, Sdel, Sast} ELSE {}),
                         pol \in {"min", "canon", "U"}}
-TKeyPairs == {<<Esc(Sa, "min"), Esc(Sa, "U")>>, <<Esc(Sa, "U"), Esc(Sa, "min")>>, <<Esc(Sa, "min"), Esc(Sa, "min")>>,
+TKeyPairs == {<<Esc(kp[1], pol), Esc(kp[2], pol)>> : kp \in LookAlikePairs, pol \in {"min", "canon"}} \cup {<<Esc(Sa, "min"), Esc(Sa, "U")>>, <<Esc(Sa, "U"), Esc(Sa, "min")>>, <<Esc(Sa, "min"), Esc(Sa, "min")>>,
               <<Esc(Sbn, "min"), Esc(Sbnl, "min")>>, <<Esc(Ss, "min"), Esc(Ss, "canon")>>, <<Esc(Sa, "min"), Esc(Sq, "min")>>,
               <<Esc(Sq, "min"), Esc(Sq, "U")>>, <<Esc(Sbn, "min"), Esc(Sbn, "l")>>, <<Esc(Sb, "min"), Esc(Sbn, "min")>>}
 TD1 == {SArr(<<>>), SOb(<<>>)}
